@@ -307,6 +307,23 @@ Example C15_positions_nonvacuous :
 Proof. vm_compute. reflexivity. Qed.
 Print Assumptions C15_positions_nonvacuous.
 
+(* a pass that ends early - "if g > 1: continue" at the top level of the loop body, which the transpiler turns into return; -
+   still takes its one sample (the theorems above are about every body, also one with such statements); here: gate values
+   0, 2, 0 -> the second pass stops after the poll and the gate read, the click of that pass has happened all the same *)
+Example C15_early_pass_end_nonvacuous :
+  let pressed := WL [WI 1; WI 0]%Z in
+  let sk := {| k_w := 32; k_drifts := []; k_passgaps := [];
+               k_buttons := [{| bd_pin := 7; bd_place := BeforeLoop; bd_h := Some 0%nat; bd_samples := [0; 0; 1; 1]%Z |}];
+               k_pots := []; k_ultras := []; k_gate := Some {| pd_pin := 19; pd_values := [0; 2; 0]%Z |};
+               k_body := [ WL [WI 30; pressed]; WL [WI 38; WI 1]; WL [WI 30; WL [WI 5; WI 0; pressed; WL [WI 0; WI 4]]] ]%Z |} in
+  run_sketch sk 3 0 =
+  WL [WI 0; WL [ev [1; 7; 0]];
+      WL [WL [ev [1; 7; 0]; ev [4; 19; 0]; ev [3; 0]; ev [3; 4]];
+          WL [ev [1; 7; 1]; ev [2; 0]; ev [4; 19; 2]; ev [3; 1]];
+          WL [ev [1; 7; 1]; ev [4; 19; 0]; ev [3; 1]; ev [3; 5]]]]%Z.
+Proof. vm_compute. reflexivity. Qed.
+Print Assumptions C15_early_pass_end_nonvacuous.
+
 (* ---------------------------------------------------------------- Potentiometer *)
 
 (* n read() calls are n analogRead events, all of the declared pin, each returning the next
